@@ -52,10 +52,30 @@ theorem cnt_eq_filter (f : Nat → BSt) (n : Nat) :
   constructor <;> congr 2 <;> funext i <;> simp only [Function.comp] <;>
     cases f i <;> simp [isCompleted, isFailed]
 
+theorem nodup_fst {α β : Type} (l : List (α × β)) (hn : l.Nodup)
+    (hu : ∀ a b b', (a, b) ∈ l → (a, b') ∈ l → b = b') : (l.map Prod.fst).Nodup := by
+  induction l with
+  | nil => exact List.nodup_nil
+  | cons x t ih =>
+    obtain ⟨a, b⟩ := x
+    have hn' := List.nodup_cons.1 hn
+    rw [List.map_cons, List.nodup_cons]
+    refine ⟨?_, ih hn'.2 (fun a b b' h1 h2 =>
+      hu a b b' (List.mem_cons_of_mem _ h1) (List.mem_cons_of_mem _ h2))⟩
+    intro hm
+    rcases List.mem_map.1 hm with ⟨⟨a', b'⟩, hm', e⟩
+    simp only at e
+    subst e
+    have := hu a' b b' (by simp) (List.mem_cons_of_mem _ hm')
+    subst this
+    exact hn'.1 hm'
+
 /-- **Bookkeeping.** Work queue and active set are duplicate-free, disjoint, in range and RUNNING; the
 success / failure counters agree with the statuses at all times; timer entries are in range; nothing
 outside `0..n-1` is ever touched; a branch the main thread has not submitted yet is PENDING and has
-no task and no timer entry. -/
+no task and no timer entry; a task whose function has ended but whose done-callback is still due
+belongs to a distinct branch that is still RUNNING, neither queued nor executing, without timer entry
+or refresh in flight. -/
 theorem C09X_bookkeeping (h : Reach n maxConc cfg s) :
     s.n = n ∧ s.cfg = cfg ∧ s.active.Nodup ∧ s.queue.Nodup ∧ (∀ i, i ∈ s.active → i ∉ s.queue) ∧
     (∀ i, i ∈ s.active ∨ i ∈ s.queue → i < n ∧ s.status i = .running) ∧
@@ -68,10 +88,13 @@ theorem C09X_bookkeeping (h : Reach n maxConc cfg s) :
     s.submitted ≤ n ∧
     (∀ i, s.submitted ≤ i → i < n →
       s.status i = .pending ∧ i ∉ s.queue ∧ i ∉ s.active ∧ ∀ t, (t, i) ∉ s.timers) ∧
-    (∀ i, s.refreshing = some i → i < s.submitted ∧ s.status i = .pending) := by
+    (∀ i, s.refreshing = some i → i < s.submitted ∧ s.status i = .pending) ∧
+    (s.ended.map Prod.fst).Nodup ∧
+    (∀ i f, (i, f) ∈ s.ended → i < s.submitted ∧ i < n ∧ s.status i = .running ∧ i ∉ s.queue ∧
+      i ∉ s.active ∧ (∀ t, (t, i) ∉ s.timers) ∧ s.refreshing ≠ some i) := by
   have hI := Inv.of_reach h
   refine ⟨hI.hn, hI.hcfg, hI.act_nodup, hI.q_nodup, hI.disj, ?_, ?_, ?_, hI.toBook.succ_fail_le, ?_,
-    hI.tim_has, ?_, hI.sub_le, ?_, hI.refr⟩
+    hI.tim_has, ?_, hI.sub_le, ?_, hI.refr, nodup_fst _ hI.end_nodup hI.end_uniq, ?_⟩
   · intro i hi
     exact ⟨hi.elim (hI.act_lt i) (hI.q_lt i), hI.run i hi⟩
   · rw [hI.hsucc]; exact (cnt_eq_filter _ _).1
@@ -87,6 +110,15 @@ theorem C09X_bookkeeping (h : Reach n maxConc cfg s) :
     · have := hI.run i (Or.inr hq); rw [hp] at this; cases this
     · have := hI.run i (Or.inl ha); rw [hp] at this; cases this
     · have := hI.tim_live t i hm; rw [hp] at this; cases this
+  · intro i f hm
+    have ho := hI.end_ok i f hm
+    refine ⟨?_, ho.2.1, ho.1, ho.2.2.2, ho.2.2.1, fun t ht => ?_, fun hr => ?_⟩
+    · apply Decidable.byContradiction
+      intro hlt
+      have := hI.unsub i (by omega) ho.2.1
+      rw [ho.1] at this; cases this
+    · have := hI.tim_live t i ht; rw [ho.1] at this; cases this
+    · have := (hI.refr i hr).2; rw [ho.1] at this; cases this
 
 /-! ## 3. the return decision -/
 
@@ -224,14 +256,30 @@ theorem C09X_items_faithful (h : Reach n maxConc cfg s) {items : List BSt}
   rw [hf, List.getElem_map]
   cases hb : items[i] <;> simp [Policy.itemOf, toBranch]
 
+/-- A done-callback occurring in a run is preceded by the end of the matching task function. -/
+theorem taskEnd_before_finish {pre post : List Act} {i : Nat} {f : Fin}
+    (hr : runActs (init n maxConc cfg) (pre ++ Act.finish i f :: post) = some s) :
+    Act.taskEnd i f ∈ pre := by
+  have hp : (pre ++ [Act.finish i f]) <+: (pre ++ Act.finish i f :: post) :=
+    ⟨post, by simp⟩
+  have h := callback_after_taskEnd _ _ hr hp i f
+  rw [List.count_append, List.count_append] at h
+  have h1 : List.count (Act.finish i f) [Act.finish i f] = 1 := by simp
+  have h2 : List.count (Act.taskEnd i f) [Act.finish i f] = 0 := by simp
+  rw [h1, h2] at h
+  exact List.count_pos_iff.1 (by omega)
+
 /-- **C09, items are truthful.** What a returned result reports as COMPLETED / FAILED is (still) the
-branch's status, and — along any run from the initial state — a task of that branch really returned /
-raised (`finish i .ok` / `finish i .err` occurs in the run). -/
+branch's status, and — along any run from the initial state — the done-callback of a task of that branch
+that returned / raised really ran (`finish i .ok` / `finish i .err` occurs in the run), after that
+task's function had ended that way (`taskEnd i .ok` / `taskEnd i .err` occurs before it). -/
 theorem C09X_reported_really_finished (acts : List Act)
     (hr : runActs (init n maxConc cfg) acts = some s) {items : List BSt}
     (ho : s.out = some (.result items)) (i : Nat) :
-    (items[i]? = some .completed → s.status i = .completed ∧ Act.finish i .ok ∈ acts) ∧
-    (items[i]? = some .failed → s.status i = .failed ∧ Act.finish i .err ∈ acts) := by
+    (items[i]? = some .completed → s.status i = .completed ∧ Act.finish i .ok ∈ acts ∧
+      ∃ pre post, acts = pre ++ Act.finish i .ok :: post ∧ Act.taskEnd i .ok ∈ pre) ∧
+    (items[i]? = some .failed → s.status i = .failed ∧ Act.finish i .err ∈ acts ∧
+      ∃ pre post, acts = pre ++ Act.finish i .err :: post ∧ Act.taskEnd i .err ∈ pre) := by
   have hR : Reach n maxConc cfg s := reach_of_runActs Reach.init acts hr
   have hres := ((Inv.of_reach hR).out_res items ho)
   have hlen := hres.1
@@ -240,21 +288,65 @@ theorem C09X_reported_really_finished (acts : List Act)
     have := (List.getElem?_eq_some_iff.1 hb).1
     omega
   have htr := trace_final (n := n) (maxConc := maxConc) (cfg := cfg) Reach.init acts hr i
+  have hsplit : ∀ f, Act.finish i f ∈ acts →
+      ∃ pre post, acts = pre ++ Act.finish i f :: post ∧ Act.taskEnd i f ∈ pre := by
+    intro f hm
+    rcases List.append_of_mem hm with ⟨pre, post, e⟩
+    refine ⟨pre, post, e, ?_⟩
+    rw [e] at hr
+    exact taskEnd_before_finish hr
   constructor
   · intro hb
     have hst := (hres.2.2 i).1 hb
-    refine ⟨hst, ?_⟩
-    rcases htr.1 hst with h0 | h0
-    · simp only [Par.init] at h0
-      rw [if_pos (hi _ hb)] at h0; cases h0
-    · exact h0
+    have hm : Act.finish i .ok ∈ acts := by
+      rcases htr.1 hst with h0 | h0
+      · simp only [Par.init] at h0
+        rw [if_pos (hi _ hb)] at h0; cases h0
+      · exact h0
+    exact ⟨hst, hm, hsplit _ hm⟩
   · intro hb
     have hst := (hres.2.2 i).2 hb
-    refine ⟨hst, ?_⟩
-    rcases htr.2 hst with h0 | h0
-    · simp only [Par.init] at h0
-      split at h0 <;> cases h0
-    · exact h0
+    have hm : Act.finish i .err ∈ acts := by
+      rcases htr.2 hst with h0 | h0
+      · simp only [Par.init] at h0
+        split at h0 <;> cases h0
+      · exact h0
+    exact ⟨hst, hm, hsplit _ hm⟩
+
+/-- **A done-callback runs after its task function ended.** In every prefix of a run from the initial
+state, the callbacks `finish i f` that have run are at most as many as the task ends `taskEnd i f`; and
+exactly: (callbacks run) + [callback of `(i, f)` still due] = (task ends). -/
+theorem C09X_callback_after_task_end (acts : List Act)
+    (hr : runActs (init n maxConc cfg) acts = some s) (i : Nat) (f : Fin) :
+    (∀ pre, pre <+: acts → pre.count (.finish i f) ≤ pre.count (.taskEnd i f)) ∧
+    acts.count (.finish i f) + (if (i, f) ∈ s.ended then 1 else 0) = acts.count (.taskEnd i f) := by
+  refine ⟨fun pre hp => callback_after_taskEnd acts pre hr hp i f, ?_⟩
+  have := callbacks_run (n := n) (maxConc := maxConc) (cfg := cfg) Reach.init acts hr i f
+  simpa [Par.init] using this
+
+/-- Step form: `finish i f` is enabled exactly when the task function of branch `i` has ended with `f`
+and its callback has not run yet; it consumes that entry. -/
+theorem C09X_finish_needs_task_end (hs : step s (.finish i f) = some s') :
+    (i, f) ∈ s.ended ∧ s'.ended = s.ended.erase (i, f) := finish_ended hs
+
+/-- **The worker is free before the callback runs.** `taskEnd i f` removes the task from the executing
+set (one worker more is free) and makes the callback due — nothing else: status, counters, event,
+decisions, queue, timers are untouched. -/
+theorem C09X_worker_free_before_callback (h : Reach n maxConc cfg s) {i : Nat} {f : Fin}
+    (hs : step s (.taskEnd i f) = some s') :
+    i ∈ s.active ∧ s'.active = s.active.erase i ∧ s'.active.length + 1 = s.active.length ∧
+    i ∉ s'.active ∧ s'.ended = s.ended ++ [(i, f)] ∧
+    s'.status = s.status ∧ s'.succ = s.succ ∧ s'.fail = s.fail ∧ s'.evt = s.evt ∧
+    s'.suspendExc = s.suspendExc ∧ s'.fatal = s.fatal ∧ s'.out = s.out ∧ s'.queue = s.queue ∧
+    s'.timers = s.timers ∧ s'.submitted = s.submitted ∧ s'.refreshing = s.refreshing := by
+  have hI := Inv.of_reach h
+  rcases taskEnd_spec hs with ⟨hi, rfl⟩
+  refine ⟨hi, rfl, ?_, ?_, rfl, rfl, rfl, rfl, rfl, rfl, rfl, rfl, rfl, rfl, rfl, rfl⟩
+  · have := List.length_erase_of_mem hi
+    have : 0 < s.active.length := List.length_pos_of_mem hi
+    simp only
+    omega
+  · exact fun hm => ((hI.act_nodup.mem_erase_iff).1 hm).1 rfl
 
 /-- Step form: COMPLETED / FAILED are only written by the done-callback of a task that returned /
 raised, and are never overwritten. -/
@@ -375,9 +467,19 @@ theorem C09X_submit_next_only (h : Reach n maxConc cfg s) {i : Nat} (hs : step s
 
 /-! ## 6. suspension -/
 
+/-- When no branch is RUNNING, no done-callback is due. -/
+theorem ended_nil_of_idle (hI : Inv n maxConc cfg s) (hidle : ∀ i, i < n → s.status i ≠ .running) :
+    s.ended = [] := by
+  cases he : s.ended with
+  | nil => rfl
+  | cons x xs =>
+    obtain ⟨i, f⟩ := x
+    have ho := hI.end_ok i f (by rw [he]; simp)
+    exact absurd ho.1 (hidle i ho.2.1)
+
 /-- **C07, the suspend decision.** `_suspend_exception` is written only by the done-callback of a task
 that ended with a status change, and at that moment: the policy is undecided, no branch is PENDING or
-RUNNING, nothing is queued or executing, and the decision is the minimum resume time of the
+RUNNING, nothing is queued or executing, no other done-callback is due, and the decision is the minimum resume time of the
 timed-suspended branches if there is one, else "indefinite" with some branch SUSPENDED
 (`ParProofs.SuspendSpec`). -/
 theorem C07X_suspend_only_when_idle (h : Reach n maxConc cfg s) {a : Act}
@@ -386,7 +488,7 @@ theorem C07X_suspend_only_when_idle (h : Reach n maxConc cfg s) {a : Act}
     ∃ k, s'.suspendExc = some k ∧ s'.evt = true ∧
       Policy.shouldComplete cfg s'.succ s'.fail n = false ∧
       (∀ i, i < n → s'.status i ≠ .pending ∧ s'.status i ≠ .running) ∧
-      s'.active = [] ∧ s'.queue = [] ∧
+      s'.active = [] ∧ s'.queue = [] ∧ s'.ended = [] ∧
       SuspendSpec n s'.status k := by
   have hI := Inv.of_reach h
   have hI' := hI.step hs
@@ -397,7 +499,7 @@ theorem C07X_suspend_only_when_idle (h : Reach n maxConc cfg s) {a : Act}
   · have h1 := shouldSuspend_some hss
     rw [hI'.hn] at h1
     have h2 := idle_of_shouldSuspend hI'.toBook hss
-    exact ⟨h1.1, h2.1, h2.2, h1.2⟩
+    exact ⟨h1.1, h2.1, h2.2, ended_nil_of_idle hI' (fun i hi => (h1.1 i hi).2), h1.2⟩
 
 /-- **C07, indefinite suspension is stable.** While `_suspend_exception` is the *indefinite* suspend,
 no branch is PENDING / RUNNING / timed-suspended and nothing is queued or executing — in particular
@@ -428,10 +530,12 @@ afterwards nothing can begin: the queue is empty and the timer thread's resubmit
 branch PENDING instead of starting it.  PENDING statuses may therefore appear; RUNNING never.) -/
 theorem C07X_suspend_decision_idle (h : Reach n maxConc cfg s) (hk : s.suspendExc.isSome = true) :
     s.active = [] ∧ s.queue = [] ∧ (∀ i, i < n → s.status i ≠ .running) ∧
-    Policy.shouldComplete cfg s.succ s.fail n = false ∧ s.evt = true ∧ s.submitted = n :=
+    Policy.shouldComplete cfg s.succ s.fail n = false ∧ s.evt = true ∧ s.submitted = n ∧
+    s.ended = [] :=
   have hI := Inv.of_reach h
   have h0 := hI.susp_idle hk
-  ⟨h0.1, h0.2.1, h0.2.2, hI.susp_undecided hk, hI.susp_evt hk, hI.susp_sub hk⟩
+  ⟨h0.1, h0.2.1, h0.2.2, hI.susp_undecided hk, hI.susp_evt hk, hI.susp_sub hk,
+    ended_nil_of_idle hI h0.2.2⟩
 
 /-- **C07, "suspended" means idle.** Whenever the main thread has raised the suspend exception, no
 branch is RUNNING, no task is executing and none is queued — the statement refuted before the fix by
@@ -440,10 +544,11 @@ of the model (see the last example of this file). -/
 theorem C07X_suspend_means_idle (h : Reach n maxConc cfg s) {k : Option Nat}
     (ho : s.out = some (.suspend k)) :
     s.active = [] ∧ s.queue = [] ∧ (∀ i, i < n → s.status i ≠ .running) ∧
-    s.suspendExc.isSome = true ∧ Policy.shouldComplete cfg s.succ s.fail n = false :=
+    s.suspendExc.isSome = true ∧ Policy.shouldComplete cfg s.succ s.fail n = false ∧
+    s.ended = [] :=
   have hk := (Inv.of_reach h).out_susp k ho
   have h0 := C07X_suspend_decision_idle h hk
-  ⟨h0.1, h0.2.1, h0.2.2.1, hk, h0.2.2.2.1⟩
+  ⟨h0.1, h0.2.1, h0.2.2.1, hk, h0.2.2.2.1, h0.2.2.2.2.2.2⟩
 
 /-- A branch becomes RUNNING **only** by its initial submission (`submit i` for the next unsubmitted
 index, from PENDING), or — again — by the resubmitter, the second half of a resumption
@@ -560,24 +665,25 @@ theorem C07X_waiting_implies_running (h : Reach n maxConc cfg s) (hn : 0 < n) (h
     s.submitted < n ∨ s.refreshing.isSome = true ∨ ∃ i, i < n ∧ s.status i = .running :=
   running_of_not_evt (Inv.of_reach h) hn he
 
-set_option synthInstance.maxSize 1024 in
+set_option synthInstance.maxSize 4096 in
 /-- The wanted statement `evt = false → active ≠ [] ∨ queue ≠ [] ∨ (a live timer entry exists)` is
 FALSE in the model: a task may end with `OrphanedChildException` *before* the event is set
-(`finish 0 .orphan` is not guarded); its callback returns without touching status or counters, the
+(`finish 0 .orphan`, the callback of a task that ended that way, is not guarded); it returns without touching status or counters, the
 branch stays RUNNING without a task, and from then on only `tick` is enabled — forever.
 (`OrphanedChildException` means "the parent already completed", i.e. in the real code it is raised
 only after the executor returned; the model over-approximates.) -/
 theorem C07X_early_orphan_stuck_witness :
-    (runActs (init 1 0 ⟨none, none, none⟩) [.submit 0, .begin 0, .finish 0 .orphan]).map
-      (fun s => (s.evt, s.active, s.queue, s.timers, s.status 0, s.submitted, s.refreshing))
-      = some (false, [], [], [], .running, 1, none) := by decide
+    (runActs (init 1 0 ⟨none, none, none⟩)
+      [.submit 0, .begin 0, .taskEnd 0 .orphan, .finish 0 .orphan]).map
+      (fun s => (s.evt, s.active, s.queue, s.timers, s.status 0, s.submitted, s.refreshing, s.ended))
+      = some (false, [], [], [], .running, 1, none, []) := by decide
 
 /-- … and such a state is stuck for good: only time passes. -/
 theorem C07X_stuck_forever (ha : s.active = []) (hq : s.queue = []) (ht : s.timers = [])
     (he : s.evt = false) (hsub : s.n ≤ s.submitted) (hrf : s.refreshing = none)
-    {a : Act} (hs : step s a = some s') :
+    (hen : s.ended = []) {a : Act} (hs : step s a = some s') :
     (∃ d, a = .tick d) ∧ s'.active = [] ∧ s'.queue = [] ∧ s'.timers = [] ∧ s'.evt = false ∧
-    s'.n ≤ s'.submitted ∧ s'.refreshing = none := by
+    s'.n ≤ s'.submitted ∧ s'.refreshing = none ∧ s'.ended = [] := by
   cases a with
   | submit i =>
     simp only [Par.step, Par.submit_] at hs
@@ -587,33 +693,37 @@ theorem C07X_stuck_forever (ha : s.active = []) (hq : s.queue = []) (ht : s.time
       have h1 : i = s.submitted := Decidable.not_not.1 h1
       rw [if_pos (by omega)] at hs; cases hs
   | begin i => simp [Par.step, Par.begin_, hq] at hs
-  | finish i f => simp [Par.step, Par.finish, ha] at hs
+  | taskEnd i f => simp [Par.step, Par.taskEnd, ha] at hs
+  | finish i f => simp [Par.step, Par.finish, hen] at hs
   | timerFire i => simp [Par.step, Par.timerFire, ht] at hs
   | resubmit i ok => simp [Par.step, Par.resubmit, hrf] at hs
-  | tick d => cases hs; exact ⟨⟨d, rfl⟩, ha, hq, ht, he, hsub, hrf⟩
+  | tick d => cases hs; exact ⟨⟨d, rfl⟩, ha, hq, ht, he, hsub, hrf, hen⟩
   | cancel i => simp [Par.step, Par.cancel_, he] at hs
   | wake => simp [Par.step, Par.wake, he] at hs
 
-/-- **C07, never stuck.** In every run in which `OrphanedChildException` is only raised after the
-completion event is set (`ReachO`), a waiting main thread (`evt = false`) always has a task that is
-executing or queued, or is itself still submitting, or a resumption is in flight; the timer disjunct of
-the wanted statement is never needed (when all branches are idle the suspend decision itself sets the
-event). -/
+/-- **C07, never stuck.** In every run in which the callback of a task that ended with
+`OrphanedChildException` only runs after the completion event is set (`ReachO`: the restriction is on
+`finish i .orphan`; `taskEnd i .orphan` is unrestricted), a waiting main thread (`evt = false`) always
+has a task that is executing or queued, or a done-callback that is due, or is itself still submitting,
+or a resumption is in flight; the timer disjunct of the wanted statement is never needed (when all
+branches are idle the suspend decision itself sets the event). -/
 theorem C07X_never_stuck (h : ReachO n maxConc cfg s) (hn : 0 < n) (he : s.evt = false) :
-    s.active ≠ [] ∨ s.queue ≠ [] ∨ s.submitted < n ∨ s.refreshing.isSome = true := by
+    s.active ≠ [] ∨ s.queue ≠ [] ∨ s.submitted < n ∨ s.refreshing.isSome = true ∨ s.ended ≠ [] := by
   rcases running_of_not_evt (Inv.of_reach h.reach) hn he with hsub | hrf | ⟨i, hi, hr⟩
   · exact Or.inr (Or.inr (Or.inl hsub))
-  · exact Or.inr (Or.inr (Or.inr hrf))
-  rcases NoOrphan.of_reachO h he i hi hr with hm | hm
+  · exact Or.inr (Or.inr (Or.inr (Or.inl hrf)))
+  rcases NoOrphan.of_reachO h he i hi hr with hm | hm | ⟨f, hm⟩
   · left; intro e; rw [e] at hm; cases hm
   · right; left; intro e; rw [e] at hm; cases hm
+  · right; right; right; right; intro e; rw [e] at hm; cases hm
 
-/-- … and then an action is enabled that makes progress: an executing task can end (in any way), or
-nothing is executing and a worker is free to start the head of the queue (`0 < maxWorkers`), or the
-main thread can submit the next branch, or the timer thread's resubmitter can finish the resumption
-in flight (either way). -/
+/-- … and then an action is enabled that makes progress: the function of an executing task can end (in
+any way), or a due done-callback can run, or nothing is executing and a worker is free to start the
+head of the queue (`0 < maxWorkers`), or the main thread can submit the next branch, or the timer
+thread's resubmitter can finish the resumption in flight (either way). -/
 theorem C07X_progress_enabled (h : ReachO n maxConc cfg s) (hn : 0 < n) (he : s.evt = false) :
-    (∃ i, i ∈ s.active ∧ ∀ f, (step s (.finish i f)).isSome = true) ∨
+    (∃ i, i ∈ s.active ∧ ∀ f, (step s (.taskEnd i f)).isSome = true) ∨
+    (∃ i f, (i, f) ∈ s.ended ∧ (step s (.finish i f)).isSome = true) ∨
     (∃ i, s.queue.head? = some i ∧ (step s (.begin i)).isSome = true) ∨
     (s.submitted < n ∧ (step s (.submit s.submitted)).isSome = true) ∨
     (∃ i, s.refreshing = some i ∧ ∀ ok, (step s (.resubmit i ok)).isSome = true) := by
@@ -622,30 +732,39 @@ theorem C07X_progress_enabled (h : ReachO n maxConc cfg s) (hn : 0 < n) (he : s.
   | cons x xs =>
     left
     have hx : x ∈ s.active := by rw [ha]; simp
-    exact ⟨x, by rw [← ha]; exact hx, fun f => finish_enabled hx f⟩
+    exact ⟨x, by rw [← ha]; exact hx, fun f => taskEnd_enabled hx f⟩
   | nil =>
     right
-    rcases C07X_never_stuck h hn he with h1 | h1 | h1 | h1
+    rcases C07X_never_stuck h hn he with h1 | h1 | h1 | h1 | h1
     · exact absurd ha h1
-    · left
+    · right; left
       cases hq : s.queue with
       | nil => exact absurd hq h1
       | cons x xs =>
         refine ⟨x, rfl, begin_enabled hq ?_⟩
         rw [ha]; exact maxWorkers_pos hB hn
-    · right; left
+    · right; right; left
       exact ⟨h1, submit_enabled (by rw [hB.hn]; exact h1)⟩
-    · right; right
+    · right; right; right
       cases hr : s.refreshing with
       | none => rw [hr] at h1; cases h1
       | some j => exact ⟨j, rfl, fun ok => resubmit_enabled hr ok⟩
+    · left
+      cases hen : s.ended with
+      | nil => exact absurd hen h1
+      | cons x xs =>
+        obtain ⟨i, f⟩ := x
+        have hm : (i, f) ∈ s.ended := by rw [hen]; simp
+        exact ⟨i, f, by rw [← hen]; exact hm, finish_enabled hm⟩
 
-/-- Enabledness in general: an executing task can always end; the head of the queue can start whenever
+/-- Enabledness in general: the function of an executing task can always end; a due done-callback can
+always run; the head of the queue can start whenever
 a worker is free; the main thread can always submit the next branch; once it has submitted everything
 and the event is set it can cancel any queued task; the resubmitter can always finish the resumption
 in flight, and meanwhile the timer thread pops nothing. -/
 theorem C07X_enabled (s : St) :
-    (∀ i f, i ∈ s.active → (step s (.finish i f)).isSome = true) ∧
+    (∀ i f, i ∈ s.active → (step s (.taskEnd i f)).isSome = true) ∧
+    (∀ i f, (i, f) ∈ s.ended → (step s (.finish i f)).isSome = true) ∧
     (∀ i rest, s.queue = i :: rest → s.active.length < s.maxWorkers →
       (step s (.begin i)).isSome = true) ∧
     (∀ d, (step s (.tick d)).isSome = true) ∧
@@ -654,7 +773,8 @@ theorem C07X_enabled (s : St) :
     (s.submitted < s.n → (step s (.submit s.submitted)).isSome = true) ∧
     (∀ i ok, s.refreshing = some i → (step s (.resubmit i ok)).isSome = true) ∧
     (∀ i, s.refreshing.isSome = true → step s (.timerFire i) = none) :=
-  ⟨fun _ f hi => finish_enabled hi f, fun _ _ hq hw => begin_enabled hq hw, tick_enabled s,
+  ⟨fun _ f hi => taskEnd_enabled hi f, fun _ _ hm => finish_enabled hm,
+    fun _ _ hq hw => begin_enabled hq hw, tick_enabled s,
     fun _ he ho hsub hi => cancel_enabled he ho hsub hi, submit_enabled,
     fun _ ok hr => resubmit_enabled hr ok, fun i hr => timerFire_disabled hr i⟩
 
@@ -703,7 +823,7 @@ theorem C09X_progress_measure (h : Reach n maxConc cfg s) {i : Nat} {f : Fin}
   · exfalso
     rcases finish_spec hs with ⟨hi, ⟨b, hfb, hb, hs'⟩ | ⟨hf', _⟩ | ⟨hf', _⟩⟩
     · have d := decide_fields { s with
-          active := s.active.erase i,
+          ended := s.ended.erase (i, f),
           status := fun x => if x = i then b else s.status x,
           succ := s.succ + (if isCompleted b then 1 else 0),
           fail := s.fail + (if isFailed b then 1 else 0),
@@ -727,16 +847,16 @@ example :
     (runActs (init 3 2 ⟨some 1, none, none⟩)
       [.submit 0, .submit 1, .submit 2, .begin 0, .begin 1, .begin 2]).isNone = true ∧
     (runActs (init 3 2 ⟨some 1, none, none⟩)
-      [.submit 0, .submit 1, .submit 2, .begin 0, .begin 1, .finish 0 .ok]).map
+      [.submit 0, .submit 1, .submit 2, .begin 0, .begin 1, .taskEnd 0 .ok, .finish 0 .ok]).map
       (fun s => (s.evt, s.active, s.queue, s.maxActive)) = some (true, [1], [2], 2) ∧
     (runActs (init 3 2 ⟨some 1, none, none⟩)
-      [.submit 0, .submit 1, .submit 2, .begin 0, .begin 1, .finish 0 .ok, .wake]).map
+      [.submit 0, .submit 1, .submit 2, .begin 0, .begin 1, .taskEnd 0 .ok, .finish 0 .ok, .wake]).map
       (fun s => (s.out, s.active)) =
         some (some (.result [.completed, .running, .suspended]), [1]) := by decide
 
 /-- (ii) fail-fast: no tolerance configured, one worker; the first failure decides the policy. -/
 example :
-    (runActs (init 3 1 ⟨none, none, none⟩) [.submit 0, .submit 1, .submit 2, .begin 0, .finish 0 .err, .wake]).map
+    (runActs (init 3 1 ⟨none, none, none⟩) [.submit 0, .submit 1, .submit 2, .begin 0, .taskEnd 0 .err, .finish 0 .err, .wake]).map
       (fun s => (s.out, s.succ, s.fail)) =
         some (some (.result [.failed, .suspended, .suspended]), 0, 1) := by decide
 
@@ -744,22 +864,22 @@ example :
 a run in which the timer thread resumes a branch before everything is idle, ending in a result. -/
 example :
     (runActs (init 2 0 ⟨none, none, none⟩)
-      [.submit 0, .submit 1, .begin 0, .begin 1, .finish 0 (.suspUntil 5), .finish 1 (.suspUntil 3), .wake]).map
+      [.submit 0, .submit 1, .begin 0, .begin 1, .taskEnd 0 (.suspUntil 5), .finish 0 (.suspUntil 5), .taskEnd 1 (.suspUntil 3), .finish 1 (.suspUntil 3), .wake]).map
       (fun s => (s.out, s.timers)) = some (some (.suspend (some 3)), [(5, 0), (3, 1)]) ∧
     (runActs (init 2 0 ⟨none, none, none⟩)
-      [.submit 0, .submit 1, .begin 0, .begin 1, .finish 0 (.suspUntil 5), .timerFire 0, .resubmit 0 true]).isNone = true ∧
+      [.submit 0, .submit 1, .begin 0, .begin 1, .taskEnd 0 (.suspUntil 5), .finish 0 (.suspUntil 5), .timerFire 0, .resubmit 0 true]).isNone = true ∧
     (runActs (init 2 0 ⟨none, none, none⟩)
-      [.submit 0, .submit 1, .begin 0, .begin 1, .finish 0 (.suspUntil 5), .tick 5, .timerFire 0, .resubmit 0 true, .begin 0,
-       .finish 0 .ok, .finish 1 .ok, .wake]).map (fun s => s.out)
+      [.submit 0, .submit 1, .begin 0, .begin 1, .taskEnd 0 (.suspUntil 5), .finish 0 (.suspUntil 5), .tick 5, .timerFire 0, .resubmit 0 true, .begin 0,
+       .taskEnd 0 .ok, .finish 0 .ok, .taskEnd 1 .ok, .finish 1 .ok, .wake]).map (fun s => s.out)
       = some (some (.result [.completed, .completed])) := by decide
 
 /-- (iv) fatal: a failed checkpoint in a branch, or in the timer thread's resubmission, wakes the main
 thread, which raises it although another branch is still executing. -/
 example :
-    (runActs (init 2 0 ⟨none, none, none⟩) [.submit 0, .submit 1, .begin 0, .begin 1, .finish 0 .fatal, .wake]).map
+    (runActs (init 2 0 ⟨none, none, none⟩) [.submit 0, .submit 1, .begin 0, .begin 1, .taskEnd 0 .fatal, .finish 0 .fatal, .wake]).map
       (fun s => (s.out, s.active)) = some (some .fatal, [1]) ∧
     (runActs (init 2 0 ⟨none, none, none⟩)
-      [.submit 0, .submit 1, .begin 0, .begin 1, .finish 0 (.suspUntil 1), .tick 1, .timerFire 0, .resubmit 0 false, .wake]).map
+      [.submit 0, .submit 1, .begin 0, .begin 1, .taskEnd 0 (.suspUntil 1), .finish 0 (.suspUntil 1), .tick 1, .timerFire 0, .resubmit 0 false, .wake]).map
       (fun s => (s.out, s.status 0)) = some (some .fatal, .pending) := by decide
 
 
@@ -772,17 +892,17 @@ tasks were executing. `cancel` is not enabled before the event is set. -/
 example :
     (runActs (init 5 2 ⟨none, none, none⟩)
       [.submit 0, .submit 1, .submit 2, .submit 3, .submit 4,
-       .begin 0, .begin 1, .finish 1 (.suspUntil 0), .begin 2, .finish 2 .susp, .begin 3,
+       .begin 0, .begin 1, .taskEnd 1 (.suspUntil 0), .finish 1 (.suspUntil 0), .begin 2, .taskEnd 2 .susp, .finish 2 .susp, .begin 3,
        .timerFire 1, .resubmit 1 true, .cancel 4]).isNone = true ∧
     (runActs (init 5 2 ⟨none, none, none⟩)
       [.submit 0, .submit 1, .submit 2, .submit 3, .submit 4,
-       .begin 0, .begin 1, .finish 1 (.suspUntil 0), .begin 2, .finish 2 .susp, .begin 3,
-       .timerFire 1, .resubmit 1 true, .finish 3 .err, .cancel 4]).map
+       .begin 0, .begin 1, .taskEnd 1 (.suspUntil 0), .finish 1 (.suspUntil 0), .begin 2, .taskEnd 2 .susp, .finish 2 .susp, .begin 3,
+       .timerFire 1, .resubmit 1 true, .taskEnd 3 .err, .finish 3 .err, .cancel 4]).map
       (fun s => (s.evt, s.queue, s.status 4)) = some (true, [1], .suspended) ∧
     (runActs (init 5 2 ⟨none, none, none⟩)
       [.submit 0, .submit 1, .submit 2, .submit 3, .submit 4,
-       .begin 0, .begin 1, .finish 1 (.suspUntil 0), .begin 2, .finish 2 .susp, .begin 3,
-       .timerFire 1, .resubmit 1 true, .finish 3 .err, .cancel 4, .begin 1, .wake]).map
+       .begin 0, .begin 1, .taskEnd 1 (.suspUntil 0), .finish 1 (.suspUntil 0), .begin 2, .taskEnd 2 .susp, .finish 2 .susp, .begin 3,
+       .timerFire 1, .resubmit 1 true, .taskEnd 3 .err, .finish 3 .err, .cancel 4, .begin 1, .wake]).map
       (fun s => (s.out, s.active, s.maxActive)) =
         some (some (.result [.running, .running, .suspended, .failed, .suspended]), [0, 1], 2) := by
   decide
@@ -794,13 +914,13 @@ branch PENDING and queues nothing; the main thread raises the timed suspend with
 pre-fix witness runs (a worker beginning the resubmitted branch) are no longer runs of the model. -/
 example :
     (runActs (init 1 0 ⟨none, none, none⟩)
-      [.submit 0, .begin 0, .finish 0 (.suspUntil 0), .timerFire 0, .resubmit 0 true, .wake]).map
+      [.submit 0, .begin 0, .taskEnd 0 (.suspUntil 0), .finish 0 (.suspUntil 0), .timerFire 0, .resubmit 0 true, .wake]).map
       (fun s => (s.out, s.status 0, s.queue, s.active, s.timers, s.fatal))
       = some (some (.suspend (some 0)), .pending, [], [], [], false) ∧
     (runActs (init 1 0 ⟨none, none, none⟩)
-      [.submit 0, .begin 0, .finish 0 (.suspUntil 0), .timerFire 0, .resubmit 0 true, .begin 0]).isNone = true ∧
+      [.submit 0, .begin 0, .taskEnd 0 (.suspUntil 0), .finish 0 (.suspUntil 0), .timerFire 0, .resubmit 0 true, .begin 0]).isNone = true ∧
     (runActs (init 2 0 ⟨some 1, none, none⟩)
-      [.submit 0, .submit 1, .begin 0, .begin 1, .finish 0 (.suspUntil 0), .finish 1 .susp, .timerFire 0, .resubmit 0 true,
+      [.submit 0, .submit 1, .begin 0, .begin 1, .taskEnd 0 (.suspUntil 0), .finish 0 (.suspUntil 0), .taskEnd 1 .susp, .finish 1 .susp, .timerFire 0, .resubmit 0 true,
        .begin 0]).isNone = true := by decide
 
 set_option synthInstance.maxSize 1024 in
@@ -812,26 +932,26 @@ the main thread does not wake before it has submitted everything, even though a 
 decided the policy; once it has, the never-started branches are reported cancelled. -/
 example :
     (runActs (init 4 3 ⟨none, none, none⟩)
-      [.submit 0, .submit 1, .begin 0, .finish 0 (.suspUntil 0), .timerFire 0, .resubmit 0 true]).map
+      [.submit 0, .submit 1, .begin 0, .taskEnd 0 (.suspUntil 0), .finish 0 (.suspUntil 0), .timerFire 0, .resubmit 0 true]).map
       (fun s => (s.queue, s.status 2, s.status 3, s.submitted))
       = some ([1, 0], .pending, .pending, 2) ∧
     (runActs (init 4 3 ⟨none, none, none⟩)
-      [.submit 0, .submit 1, .begin 0, .finish 0 (.suspUntil 0), .timerFire 0, .resubmit 0 true, .begin 1,
+      [.submit 0, .submit 1, .begin 0, .taskEnd 0 (.suspUntil 0), .finish 0 (.suspUntil 0), .timerFire 0, .resubmit 0 true, .begin 1,
        .submit 2, .submit 3]).map (fun s => (s.queue, s.active)) = some ([0, 2, 3], [1]) ∧
     (runActs (init 4 3 ⟨none, none, none⟩)
-      [.submit 0, .submit 1, .begin 0, .finish 0 (.suspUntil 0), .timerFire 0, .resubmit 0 true, .begin 1,
+      [.submit 0, .submit 1, .begin 0, .taskEnd 0 (.suspUntil 0), .finish 0 (.suspUntil 0), .timerFire 0, .resubmit 0 true, .begin 1,
        .submit 2, .submit 3, .begin 2]).isNone = true ∧
     (runActs (init 4 3 ⟨none, none, none⟩)
-      [.submit 0, .submit 1, .begin 0, .finish 0 (.suspUntil 0), .timerFire 0, .resubmit 0 true, .begin 1,
+      [.submit 0, .submit 1, .begin 0, .taskEnd 0 (.suspUntil 0), .finish 0 (.suspUntil 0), .timerFire 0, .resubmit 0 true, .begin 1,
        .submit 2, .submit 3, .begin 0, .begin 2]).map (fun s => (s.queue, s.active, s.maxActive))
       = some ([3], [1, 0, 2], 3) ∧
     (runActs (init 4 3 ⟨none, none, none⟩) [.submit 1]).isNone = true ∧
     (runActs (init 4 3 ⟨none, none, none⟩)
-      [.submit 0, .submit 1, .begin 0, .finish 0 (.suspUntil 0), .timerFire 0, .resubmit 0 true, .begin 1,
-       .finish 1 .err, .wake]).isNone = true ∧
+      [.submit 0, .submit 1, .begin 0, .taskEnd 0 (.suspUntil 0), .finish 0 (.suspUntil 0), .timerFire 0, .resubmit 0 true, .begin 1,
+       .taskEnd 1 .err, .finish 1 .err, .wake]).isNone = true ∧
     (runActs (init 4 3 ⟨none, none, none⟩)
-      [.submit 0, .submit 1, .begin 0, .finish 0 (.suspUntil 0), .timerFire 0, .resubmit 0 true, .begin 1,
-       .finish 1 .err, .submit 2, .submit 3, .wake]).map (fun s => s.out)
+      [.submit 0, .submit 1, .begin 0, .taskEnd 0 (.suspUntil 0), .finish 0 (.suspUntil 0), .timerFire 0, .resubmit 0 true, .begin 1,
+       .taskEnd 1 .err, .finish 1 .err, .submit 2, .submit 3, .wake]).map (fun s => s.out)
       = some (some (.result [.suspended, .failed, .suspended, .suspended])) := by decide
 
 set_option synthInstance.maxSize 1024 in
@@ -844,29 +964,53 @@ the late resubmitter then bails out (branch reported PENDING, i.e. started), or 
 failure that nobody reads any more. -/
 example :
     (runActs (init 3 0 ⟨none, none, none⟩)
-      [.submit 0, .begin 0, .submit 1, .begin 1, .finish 1 (.suspUntil 0), .timerFire 1]).map
+      [.submit 0, .begin 0, .submit 1, .begin 1, .taskEnd 1 (.suspUntil 0), .finish 1 (.suspUntil 0), .timerFire 1]).map
       (fun s => (s.queue, s.status 1, s.status 2, s.refreshing, s.timers))
       = some ([], .pending, .pending, some 1, []) ∧
     (runActs (init 3 0 ⟨none, none, none⟩)
-      [.submit 0, .begin 0, .submit 1, .begin 1, .finish 1 (.suspUntil 0), .timerFire 1, .submit 2,
+      [.submit 0, .begin 0, .submit 1, .begin 1, .taskEnd 1 (.suspUntil 0), .finish 1 (.suspUntil 0), .timerFire 1, .submit 2,
        .resubmit 1 true]).map (fun s => (s.queue, s.refreshing)) = some ([2, 1], none) ∧
     (runActs (init 3 0 ⟨none, none, none⟩)
-      [.submit 0, .begin 0, .submit 1, .begin 1, .finish 1 (.suspUntil 0), .timerFire 1,
+      [.submit 0, .begin 0, .submit 1, .begin 1, .taskEnd 1 (.suspUntil 0), .finish 1 (.suspUntil 0), .timerFire 1,
        .resubmit 1 true, .submit 2]).map (fun s => (s.queue, s.refreshing)) = some ([1, 2], none) ∧
     (runActs (init 3 0 ⟨none, none, none⟩)
-      [.submit 0, .begin 0, .submit 1, .begin 1, .finish 1 (.suspUntil 0), .finish 0 (.suspUntil 0),
+      [.submit 0, .begin 0, .submit 1, .begin 1, .taskEnd 1 (.suspUntil 0), .finish 1 (.suspUntil 0), .taskEnd 0 (.suspUntil 0), .finish 0 (.suspUntil 0),
        .timerFire 1, .timerFire 0]).isNone = true ∧
     (runActs (init 3 0 ⟨none, none, none⟩)
-      [.submit 0, .begin 0, .submit 1, .begin 1, .finish 1 (.suspUntil 0), .finish 0 (.suspUntil 0),
+      [.submit 0, .begin 0, .submit 1, .begin 1, .taskEnd 1 (.suspUntil 0), .finish 1 (.suspUntil 0), .taskEnd 0 (.suspUntil 0), .finish 0 (.suspUntil 0),
        .timerFire 1, .resubmit 1 true, .timerFire 0]).map (fun s => (s.queue, s.refreshing))
       = some ([1], some 0) ∧
     (runActs (init 2 0 ⟨none, none, none⟩)
-      [.submit 0, .submit 1, .begin 0, .begin 1, .finish 0 (.suspUntil 0), .timerFire 0,
-       .finish 1 .err, .wake, .resubmit 0 true]).map (fun s => (s.out, s.queue, s.status 0, s.fatal))
+      [.submit 0, .submit 1, .begin 0, .begin 1, .taskEnd 0 (.suspUntil 0), .finish 0 (.suspUntil 0), .timerFire 0,
+       .taskEnd 1 .err, .finish 1 .err, .wake, .resubmit 0 true]).map (fun s => (s.out, s.queue, s.status 0, s.fatal))
       = some (some (.result [.pending, .failed]), [], .pending, false) ∧
     (runActs (init 2 0 ⟨none, none, none⟩)
-      [.submit 0, .submit 1, .begin 0, .begin 1, .finish 0 (.suspUntil 0), .timerFire 0,
-       .finish 1 .err, .wake, .resubmit 0 false]).map (fun s => (s.out, s.fatal))
+      [.submit 0, .submit 1, .begin 0, .begin 1, .taskEnd 0 (.suspUntil 0), .finish 0 (.suspUntil 0), .timerFire 0,
+       .taskEnd 1 .err, .finish 1 .err, .wake, .resubmit 0 false]).map (fun s => (s.out, s.fatal))
       = some (some (.result [.pending, .failed]), true) := by decide
+
+set_option synthInstance.maxSize 4096 in
+/-- (ix) the worker is free before the callback runs (the run that motivated the split of `finish`):
+n = 2, one worker.  Branch 0 parks and is re-submitted behind branch 1; when branch 1's task function
+has ended (`taskEnd 1 ok`) the worker takes the re-submitted branch 0 (`begin 0`) although branch 1's
+done-callback has not run yet: branch 1 is still RUNNING with its callback due, the counters have not
+moved, and never more than one task is executing (`maxActive = 1`).  Before `taskEnd 1 ok` that
+`begin 0` is disabled (the only worker is busy); and a callback cannot run before its task ended. -/
+example :
+    (runActs (init 2 1 ⟨none, none, none⟩)
+      [.submit 0, .begin 0, .taskEnd 0 (.suspUntil 0), .finish 0 (.suspUntil 0), .timerFire 0,
+       .submit 1, .begin 1, .resubmit 0 true, .begin 0]).isNone = true ∧
+    (runActs (init 2 1 ⟨none, none, none⟩)
+      [.submit 0, .begin 0, .taskEnd 0 (.suspUntil 0), .finish 0 (.suspUntil 0), .timerFire 0,
+       .submit 1, .begin 1, .resubmit 0 true, .taskEnd 1 .ok, .begin 0]).map
+      (fun s => (s.active, s.ended, s.status 1, s.succ, s.evt, s.maxActive))
+      = some ([0], [(1, .ok)], .running, 0, false, 1) ∧
+    (runActs (init 2 1 ⟨none, none, none⟩)
+      [.submit 0, .begin 0, .taskEnd 0 (.suspUntil 0), .finish 0 (.suspUntil 0), .timerFire 0,
+       .submit 1, .begin 1, .resubmit 0 true, .taskEnd 1 .ok, .begin 0, .finish 1 .ok,
+       .taskEnd 0 .ok, .finish 0 .ok, .wake]).map (fun s => (s.out, s.maxActive, s.succ, s.ended))
+      = some (some (.result [.completed, .completed]), 1, 2, []) ∧
+    (runActs (init 2 1 ⟨none, none, none⟩) [.submit 0, .begin 0, .finish 0 .ok]).isNone = true := by
+  decide
 
 end C09X
